@@ -440,8 +440,11 @@ step_harness!(fdl_step_use_token, 3, |f0, f, phy, now, apps, napps| {
         if phy.tx_count == 1 {
             let h = sent_data(phy).unwrap();
             let expects = !matches!(h.fc, crate::fdl::FunctionCode::Request { req: crate::fdl::RequestType::SdnLow, .. });
-            if expects { assert!(f.state == (State::AwaitDataResponse { address: h.da, data: match f.state { State::AwaitDataResponse { data, .. } => data, _ => data0 } })); }
-            else { assert!(matches!(f.state, State::UseToken { first_cycle_done: true, .. })); }
+            // C15: the round-robin start marker of this visit survives the transmission: it is set as soon as one
+            // application has ended its turn, and carried into AwaitDataResponse unchanged
+            let want_data = UseTokenData { token_time: data0.token_time, first_app: if asked == 1 { data0.first_app } else { data0.first_app.or(Some(f0.next_application)) } };
+            if expects { assert!(f.state == (State::AwaitDataResponse { address: h.da, data: want_data })); }
+            else { assert!(f.state == (State::UseToken { data: want_data, first_cycle_done: true })); }
         }
     }
     if matches!(f.state, State::PassToken { .. }) { assert!(f.state == (State::PassToken { do_gap: DoGap::Yes, attempt: PassTokenAttempt::First }) && phy.tx_count == 0); }
